@@ -190,7 +190,9 @@ func (st *SymbolTable) Resolve(name string) (symbol *Symbol, ok bool) {
 // DefineLocal adds a new symbol with ScopeLocal in the current scope.
 func (st *SymbolTable) DefineLocal(name string) (*Symbol, bool) {
 	symbol, ok := st.store[name]
-	if ok {
+	// a builtin symbol in the store is only the entry cached by Resolve for a
+	// builtin that was used before; it is not a definition of the name.
+	if ok && symbol.Scope != ScopeBuiltin {
 		return symbol, true
 	}
 
